@@ -113,6 +113,10 @@ fn run_clock_error_bound_poller(
 
     // Keep on running forever until we receive the instruction to stop.
     while keep_running {
+        #[cfg(feature = "verif-hooks")]
+        if crate::verif_failpoint::hit("poller.loop") {
+            return;
+        }
         // First, make sure we take a MONOTONIC timestamp *before* getting chronyd data. This will
         // slightly inflate the dispersion component of the clock error bound but better be
         // pessimistic and correct, than greedy and wrong. The actual error added here is expected
@@ -123,6 +127,10 @@ fn run_clock_error_bound_poller(
         // scheduled out or delayed.
         match clock_gettime_safe(CLOCK_MONOTONIC) {
             Ok(as_of) => {
+                #[cfg(feature = "verif-hooks")]
+                if crate::verif_failpoint::hit("poller.asof") {
+                    return;
+                }
                 // If polling is successful, pass the tracking data and monotonic timestamp to the
                 // shm writer. Otherwise signal chrony is not responding.
                 let message = match poller.get_tracking() {
@@ -154,6 +162,10 @@ fn run_clock_error_bound_poller(
                     }
                 };
 
+                #[cfg(feature = "verif-hooks")]
+                if crate::verif_failpoint::hit("poller.send.pre") {
+                    return;
+                }
                 match ctx.dbox.send(&ChannelId::ShmWriter, message) {
                     Ok(()) => (),
                     Err(_) => {
@@ -168,6 +180,10 @@ fn run_clock_error_bound_poller(
             ),
         }
 
+        #[cfg(feature = "verif-hooks")]
+        if crate::verif_failpoint::hit("poller.recv") {
+            return;
+        }
         // TODO: this is a very naive implementation. If messages are received in a burst, this
         // would hit chronyd at the same pace. In the current implementation, this is not happening
         // since only the Abort message is meant to be sent to the chronyd polling thread. However,
@@ -184,8 +200,51 @@ fn run_clock_error_bound_poller(
     }
 }
 
+/// Public wrappers around the private items of this module (verification only).
+#[cfg(feature = "verif-hooks")]
+pub mod verif_api {
+    use super::*;
+
+    /// Public mirror of the private `ChronyOperations` trait.
+    pub trait ChronyOps {
+        fn get_tracking(&mut self) -> Option<Tracking>;
+        fn is_within_grace_period(&self) -> bool;
+    }
+
+    struct Adapter<T: ChronyOps>(T);
+
+    impl<T: ChronyOps> ChronyOperations for Adapter<T> {
+        fn get_tracking(&mut self) -> Option<Tracking> {
+            self.0.get_tracking()
+        }
+
+        fn is_within_grace_period(&self) -> bool {
+            self.0.is_within_grace_period()
+        }
+    }
+
+    /// `run_clock_error_bound_poller()` over caller supplied chrony operations.
+    pub fn run_poller_with<T: ChronyOps>(
+        ctx: Context,
+        ops: T,
+        phc_info: Option<PhcInfo>,
+        sleep: Duration,
+    ) {
+        run_clock_error_bound_poller(ctx, Adapter(ops), phc_info, sleep)
+    }
+
+    /// `run_clock_error_bound_poller()` over the real `ClockErrorBoundPoller`.
+    pub fn run_poller_real(ctx: Context, phc_info: Option<PhcInfo>, sleep: Duration) {
+        run_clock_error_bound_poller(ctx, ClockErrorBoundPoller::default(), phc_info, sleep)
+    }
+}
+
 /// Entry point to this thread.
 pub fn run(ctx: Context, phc_info: Option<PhcInfo>) {
+    #[cfg(feature = "verif-hooks")]
+    if crate::verif_failpoint::hit("poller.start") {
+        return;
+    }
     info!("Starting chronyd polling thread");
     let poller = ClockErrorBoundPoller::default();
     let sleep = Duration::from_millis(1000);
